@@ -405,6 +405,29 @@ func directedBus(name string, idx int) (*busProgram, func([]who) who) {
 		p := base()
 		p.threads = [][]action{{sub(0, hspec{fn: 0, filter: 0}), {kind: "pub", t: 0, v: 1, viaAny: true}, {kind: "pub", t: 0, v: 9, viaAny: true}}}
 		return p, newestPick
+	case name == "bus02" && idx == 0:
+		// a Once handler whose body unsubscribes an earlier handler and subscribes a new one (the list keeps its length):
+		// the retirement must remove the Once handler itself, not whatever now sits at its old position
+		p := base()
+		p.bodies[1] = []action{{kind: "unsub", t: 0, fn: 0}, sub(0, hspec{fn: 4, filter: -1})}
+		p.threads = [][]action{{sub(0, hspec{fn: 0, filter: -1}), sub(0, hspec{fn: 2, once: true, filter: -1, body: 1}), pub(0, 1, 0),
+			{kind: "count", t: 0}, pub(0, 2, 0), {kind: "unsub", t: 0, fn: 4}, {kind: "count", t: 0}}}
+		return p, newestPick
+	case name == "bus01" && idx == 2:
+		// a Once handler whose body clears the type and subscribes a fresh handler: the retirement of the Once handler
+		// (by identity) must leave the fresh registration alone
+		p := base()
+		p.bodies[1] = []action{{kind: "clear", t: 0}, sub(0, hspec{fn: 4, filter: -1})}
+		p.threads = [][]action{{sub(0, hspec{fn: 0, once: true, filter: -1, body: 1}), pub(0, 1, 0), {kind: "count", t: 0}, pub(0, 2, 0), {kind: "count", t: 0}}}
+		return p, newestPick
+	case name == "bus01" && idx == 3:
+		// a nested publish of the same type retires a Once handler that sits between two others while the outer publish
+		// is walking its snapshot: the last handler gets each event exactly once
+		p := base()
+		p.bodies[1] = []action{pub(0, 2, 0)}
+		p.threads = [][]action{{sub(0, hspec{fn: 0, filter: 0, body: 1}), sub(0, hspec{fn: 2, once: true, filter: -1}), sub(0, hspec{fn: 4, filter: -1}),
+			pub(0, 7, 0), {kind: "count", t: 0}, pub(0, 8, 0)}}
+		return p, newestPick
 	case name == "bus01" && idx == 1:
 		// re-entrant publish from an earlier handler while a once-handler and a later plain handler are registered
 		p := base()
